@@ -124,7 +124,7 @@ Definition te_ok (te : ted) : Prop := tdistinct (te_new te).
 (* operations that leave the editor on the same role *)
 Definition stays (o : edop) : bool :=
   match o with
-  | OpSignEditor _ | OpChange _ | OpFromRepo | OpSign _ => false
+  | OpSignEditor _ | OpChange _ | OpFromRepo | OpSign _ | OpUpdate _ _ _ _ _ => false
   | _ => true
   end.
 
@@ -300,6 +300,49 @@ Proof.
     apply replace_role_names in R as [_ R]. cbn [en_children] in R. exact R.
 Qed.
 
+Lemma attach_loaded_names cur : forall l l', attach_loaded cur l = Some l' ->
+  incl (names (all_roles l')) (names l ++ names (all_roles (en_children cur))).
+Proof.
+  induction l as [|c rest IH]; intros l' H; cbn [attach_loaded] in H.
+  - inversion H; subst. intros x [].
+  - destruct (find_role_in (en_name c) cur) as [x|] eqn:F; [|discriminate].
+    destruct (attach_loaded cur rest) as [rest'|]; [|discriminate]. inversion H; subst; clear H.
+    rewrite names_all_roles_cons, names_flat. cbn [names map]. unfold set_content at 1. cbn [en_name en_hdr]. fold (en_name c).
+    intros y [Hy|Hy]; [left; exact Hy|]. apply in_app_or in Hy as [Hy|Hy].
+    + unfold set_content in Hy. cbn [en_children] in Hy. right. apply in_or_app. right.
+      apply (sub_names x _ (find_role_in_in cur _ x F)). exact Hy.
+    + apply (IH rest' eq_refl) in Hy. apply in_app_or in Hy as [Hy|Hy]; [right; apply in_or_app; left; exact Hy|].
+      right. apply in_or_app. right. exact Hy.
+Qed.
+
+(* names of the roles an incoming document delegates to are names of roles the owner holds *)
+Lemma incoming_names r top name adds version expires keys inc :
+  incoming r top name adds version expires keys = Some inc ->
+  incl (names (all_roles (en_children inc))) (names (all_roles (en_children top))).
+Proof.
+  unfold incoming. destruct (parent_in name top) as [[dk sibs]|]; [|discriminate].
+  destruct (find_role_in name top) as [cur|] eqn:F; [|discriminate].
+  destruct (sign_as r (HDeleg dk sibs) name keys); [|discriminate]. intro H. inversion H; subst; clear H. cbn [en_children].
+  apply sub_names, (find_role_in_in top name cur F).
+Qed.
+
+Lemma update_delegated_names st name inc st' : update_delegated st name inc = Some st' ->
+  incl (st_names st') (st_names st ++ names (all_roles (en_children inc))).
+Proof.
+  unfold update_delegated. destruct (rd_top st) as [top|] eqn:Htop; [|discriminate].
+  destruct (parent_in name top) as [[dk sibs]|]; [|discriminate].
+  destruct (find_role_in name top) as [cur|] eqn:F; [|discriminate].
+  destruct (_ && _); [|discriminate]. destruct (attach_loaded cur (en_children inc)) as [ch'|] eqn:A; [|discriminate].
+  destruct (replace_role name _ top) as [top'|] eqn:R; [|discriminate]. intro H. inversion H; subst; clear H.
+  unfold st_names, top_names, te_names. cbn [rd_top rd_te]. rewrite Htop, app_nil_r.
+  apply replace_role_names in R as [_ R]. cbn [en_children] in R.
+  intros x Hx. apply R in Hx. apply in_app_or in Hx as [Hx|Hx]; [apply in_or_app; left; apply in_or_app; left; exact Hx|].
+  apply (attach_loaded_names cur _ _ A) in Hx. apply in_app_or in Hx as [Hx|Hx].
+  - apply in_or_app. right. unfold names in *. apply in_map_iff in Hx as (y & Ey & Hy). apply in_map_iff. exists y. split; [exact Ey|].
+    apply in_all_roles, Hy.
+  - apply in_or_app. left. apply in_or_app. left. apply (sub_names cur _ (find_role_in_in top name cur F)). exact Hx.
+Qed.
+
 Lemma step_names r st o st' : ed_step r st o = Some st' -> incl (st_names st') (st_names st ++ op_names o).
 Proof.
   destruct o; cbn [ed_step op_names]; rewrite ?app_nil_r.
@@ -322,6 +365,13 @@ Proof.
     intro H. inversion H; subst; clear H. unfold st_names, top_names, te_names. cbn. rewrite Htop, !app_nil_r.
     apply incl_app; apply incl_appl, incl_refl.
   - (* sign *) destruct (ed_at_sign st keys); [|discriminate]. destruct (sign_accepts r s); [|discriminate]. apply sign_editor_names.
+  - (* update *) destruct (bytes_eqb name name_targets_role); [discriminate|].
+    destruct (rd_top st) as [top|] eqn:Htop; [|discriminate].
+    destruct (incoming r top name adds version expires keys) as [inc|] eqn:I; [|discriminate].
+    intro H. apply (update_delegated_names st name inc st') in H.
+    + intros x Hx. apply H in Hx. apply in_app_or in Hx as [Hx|Hx]; [exact Hx|].
+      unfold st_names, top_names. rewrite Htop. apply in_or_app. left.
+      apply (incoming_names r top name adds version expires keys inc I). exact Hx.
 Qed.
 
 Lemma run_names r : forall ops st, incl (st_names (fst (ed_run r st ops))) (st_names st ++ ops_names ops).
@@ -415,6 +465,12 @@ Proof.
     + destruct (rd_top st); [|discriminate]. inversion H; subst. exact I.
     + destruct (ed_at_sign st keys); [|discriminate]. destruct (sign_accepts r s); [|discriminate].
       eapply sign_editor_ok; eassumption.
+    + destruct (bytes_eqb name name_targets_role); [discriminate|]. destruct (rd_top st) as [top|]; [|discriminate].
+      destruct (incoming r top name adds version expires keys) as [inc|]; [|discriminate].
+      unfold update_delegated in H. destruct (rd_top st) as [top2|]; [|discriminate].
+      destruct (parent_in name top2) as [[dk sibs]|]; [|discriminate]. destruct (find_role_in name top2); [|discriminate].
+      destruct (_ && _); [|discriminate]. destruct (attach_loaded _ _); [|discriminate].
+      destruct (replace_role _ _ _); [|discriminate]. inversion H; subst. exact I.
 Qed.
 
 Lemma run_ok r : forall ops st, st_ok st -> st_ok (fst (ed_run r st ops)).
@@ -753,4 +809,84 @@ Proof.
     + rewrite RF. destruct (replace_go (replace_role name d) name d r) as [r'|] eqn:G2; [|discriminate].
       inversion G; subst ch'; clear G. destruct (IHr (fun y Hy => IH y (or_intror Hy)) r' eq_refl) as (c & H1 & H2).
       exists c. split; [exact H1|]. cbn [find_go]. rewrite E, RF. exact H2.
+Qed.
+
+(* ---------------------------------------------------------------------------------------- *)
+(* the cross-party flow: incoming metadata for a delegated role is taken only with a threshold of distinct
+   authorised signatures under the delegating role and a version that is not lower; the role then holds the
+   incoming document, under the header its delegating role has for it, and the editor holds no role under edit *)
+Theorem update_checked r st name adds version expires keys st' :
+  ed_step r st (OpUpdate name adds version expires keys) = Some st' ->
+  exists top cur dk sibs inc top',
+    rd_top st = Some top /\ parent_in name top = Some (dk, sibs) /\ find_role_in name top = Some cur
+    /\ incoming r top name adds version expires keys = Some inc
+    /\ (exists h, find_hdr name (hdrs_of sibs) = Some h
+                  /\ spec_accept dk (dh_keyids h) (dh_threshold h) (sign_with (dh_keyids (en_hdr cur)) (en_signers inc)) = true)
+    /\ en_version cur <= version
+    /\ rd_te st' = None /\ rd_top st' = Some top'
+    /\ exists c, find_role_in name top' = Some c
+                 /\ en_hdr c = en_hdr cur /\ en_version c = version /\ en_expires c = expires
+                 /\ en_entries c = textend (en_entries cur) adds /\ en_dkeys c = en_dkeys cur /\ en_signers c = en_signers inc.
+Proof.
+  cbn [ed_step]. destruct (bytes_eqb name name_targets_role); [discriminate|].
+  destruct (rd_top st) as [top|] eqn:Htop; [|discriminate].
+  destruct (incoming r top name adds version expires keys) as [inc|] eqn:I; [|discriminate].
+  unfold update_delegated. rewrite Htop.
+  destruct (parent_in name top) as [[dk sibs]|] eqn:P; [|discriminate].
+  destruct (find_role_in name top) as [cur|] eqn:F; [|discriminate].
+  destruct (deleg_verify fixed dk (hdrs_of sibs) name (sign_with (dh_keyids (en_hdr cur)) (en_signers inc))) eqn:V; [|discriminate].
+  destruct (en_version cur <=? en_version inc) eqn:Hv; [|discriminate]. cbn [andb].
+  destruct (attach_loaded cur (en_children inc)) as [ch'|]; [|discriminate].
+  destruct (replace_role name _ top) as [top'|] eqn:R; [|discriminate]. intro H. inversion H; subst st'; clear H.
+  assert (inc = ENode (en_hdr cur) version expires (textend (en_entries cur) adds) (en_dkeys cur) (en_children cur) (en_signers inc)) as Einc.
+  { unfold incoming in I. rewrite P, F in I. destruct (sign_as r (HDeleg dk sibs) name keys); [|discriminate]. inversion I; subst. reflexivity. }
+  exists top, cur, dk, sibs, inc, top'. do 4 (split; [first [reflexivity|assumption]|]).
+  split.
+  { unfold deleg_verify in V. destruct (find_hdr name (hdrs_of sibs)) as [h|]; [|discriminate]. exists h. split; [reflexivity|].
+    cbn [fixed fx_deleg_distinct] in V. rewrite verify_distinct_spec in V. exact V. }
+  split; [rewrite Einc in Hv; cbn [en_version] in Hv; lia|]. split; [reflexivity|]. split; [reflexivity|].
+  destruct (replace_role_sets _ _ _ _ R) as (c & Hc1 & Hc2). rewrite F in Hc1. inversion Hc1; subst c; clear Hc1.
+  eexists. split; [exact Hc2|]. unfold set_content. cbn [en_hdr en_version en_expires en_entries en_dkeys en_signers].
+  rewrite Einc. cbn [en_version en_expires en_entries en_dkeys en_signers]. repeat split.
+Qed.
+
+(* non-vacuity: the program of program_example, signed and written; the holder of A (keys 4, 5, 6; threshold 2)
+   adds a target at version 5 and signs with two of its keys; the owner takes the metadata in, signs again, and the
+   client loads the new target; with one key the holder cannot sign, and an older version is refused *)
+Definition x_cross (holder_keys : list N) (v : N) : list edop :=
+  x_prog [9; 8; 2] ++ [OpSign [1; 2; 3; 20]; OpFromRepo;
+                        OpUpdate [65] [(x_tn [97; 47; 110; 101; 119], x_ti 7 70)] v 450 holder_keys;
+                        OpChange name_targets_role;
+                        OpTargetsVersion 8; OpTargetsExpires 900; OpSnapshotVersion 9; OpSnapshotExpires 800;
+                        OpTimestampVersion 10; OpTimestampExpires 700].
+
+Lemma cross_example : forall cs,
+  exists tg sn ts srv w,
+    ed_program_sign x_len x_len (x_root cs) (x_cross [4; 6] 5) [1; 2; 3; 20] = Some (tg, sn, ts, srv)
+    /\ run_cycle fixed (x_cyc cs srv) store0 = (Ok {| rp_root := x_root cs; rp_ts := ts; rp_snap := sn; rp_targets := tg |}, w)
+    /\ map (fun ni => (tn_raw (fst ni), ti_len (snd ni))) (targets_iter tg)
+       = [([116], 5); ([97; 47; 120], 1); ([97; 47; 110; 101; 119], 7); ([98; 47; 122], 2)]
+    /\ nth 29 (snd (ed_run (x_root cs) red_new (x_cross [4; 6] 5))) false = true
+    /\ nth 29 (snd (ed_run (x_root cs) red_new (x_cross [4] 5))) true = false
+    /\ nth 29 (snd (ed_run (x_root cs) red_new (x_cross [4; 6] 2))) true = false.
+Proof.
+  intro cs.
+  destruct (ed_program_sign x_len x_len (x_root cs) (x_cross [4; 6] 5) [1; 2; 3; 20])
+    as [[[[tg sn] ts] srv]|] eqn:E; [|destruct cs; vm_compute in E; discriminate].
+  destruct (ed_at_sign (fst (ed_run (x_root cs) red_new (x_cross [4; 6] 5))) [1; 2; 3; 20]) as [ss|] eqn:Ess;
+    [|destruct cs; vm_compute in Ess; discriminate].
+  destruct (program_roundtrip x_len x_len (x_root cs) (x_cross [4; 6] 5) [1; 2; 3; 20] x_cfg 100 tg sn ts srv ss Ess E) as [w Hw].
+  - reflexivity.
+  - intros k Hk. cbn in Hk. intuition (subst; reflexivity).
+  - small_names.
+  - destruct cs; [discriminate|]. intros _. cbn. intuition discriminate.
+  - reflexivity.
+  - destruct cs; vm_compute in Ess; injection Ess as <-; vm_compute; lia.
+  - destruct cs; vm_compute in E; injection E as <- <- <- <-; vm_compute; discriminate.
+  - vm_compute; discriminate.
+  - destruct cs; vm_compute in Ess; injection Ess as <-; vm_compute; discriminate.
+  - destruct cs; vm_compute in Ess; injection Ess as <-; vm_compute; discriminate.
+  - destruct cs; vm_compute in Ess; injection Ess as <-; vm_compute; discriminate.
+  - exists tg, sn, ts, srv, w. split; [reflexivity|]. split; [exact Hw|].
+    destruct cs; vm_compute in E; injection E as <- <- <- <-; repeat split; vm_compute; reflexivity.
 Qed.
